@@ -140,7 +140,8 @@ func (h *H) Fail(msg string) { h.failed = append(h.failed, msg) }
 
 // Known declares a region of the input space in which violations are classified
 // under a key of /verif/known_findings.txt (only keys listed there are honoured).
-func (h *H) Known(key string, region bool) {}
+// When only is given the region applies just to violations whose message contains one of these strings.
+func (h *H) Known(key string, region bool, only ...string) {}
 
 func (h *H) Cover(label string) {}
 
